@@ -100,6 +100,10 @@ func execDecodeCase(c *Case) []ModeResult {
 		if err != nil {
 			return observeErr(err)
 		}
+		if c.Allowed.Must == "error" && len(c.Known) == 0 {
+			// the refusal belongs to the load: a model that loads with such a weight has dropped or replaced it
+			return Observation{Kind: "nil", Note: "a model holding a tensor that must be refused was loaded"}
+		}
 		out, err := m.Run(gonnx.Tensors{})
 		if err != nil {
 			return observeErr(err)
